@@ -89,10 +89,16 @@ class RangeProg:
 
 
 def range_programs(rng, n):
+    """the complete grid of small ranges (start, length class, inclusiveness, step incl. absent) plus n random ones"""
     out = []
+    for lo in (-2, 0, 1):
+        for d in (-1, 0, 1, 4, 5, 6):
+            for incl in (False, True):
+                for step in (None, 1, 2, 3, 4):
+                    out.append(RangeProg(lo, lo + d, incl, step))
     for _ in range(n):
-        lo, hi = rng.randint(-3, 4), rng.randint(-3, 8)
-        out.append(RangeProg(lo, hi, rng.random() < 0.5, rng.choice([None, None, 1, 2, 3])))
+        lo, hi = rng.randint(-3, 4), rng.randint(-3, 12)
+        out.append(RangeProg(lo, hi, rng.random() < 0.5, rng.choice([None, 1, 2, 3, 5])))
     return out
 
 
